@@ -127,6 +127,9 @@ func (ex *Exec) call(in ssa.Instruction, c *ssa.CallCommon) Val {
 	if callee.Synthetic != "" && strings.Contains(callee.Synthetic, "instance") && callee.Origin() != nil {
 		key = funcKey(callee.Origin())
 	}
+	if ex.monitorCall(key, args, pos) {
+		return Val{T: rt}
+	}
 	if fc := ex.eng.CS.Funcs[key]; fc != nil {
 		var names []string
 		for _, p := range callee.Params {
@@ -285,6 +288,18 @@ func (ex *Exec) assignTargets(fc *FuncContract, env *Env) (targets []assignTarge
 				}
 			case *CCall:
 				id, _ := x.Fun.(*CIdent)
+				if id != nil && id.Name == "mapof" && len(x.Args) == 1 {
+					// mapof(m): the contents (domain and values) of the map m
+					v := env.eval(x.Args[0])
+					mt, ok := v.T.Underlying().(*types.Map)
+					if !ok {
+						env.fail("assigns: mapof() of non-map")
+					}
+					dn, ds, vn, vs := mapHeaps(em, mt)
+					em.heapSorts()[dn], em.heapSorts()[vn] = ds, vs
+					targets = append(targets, assignTarget{heap: dn, ref: v.E}, assignTarget{heap: vn, ref: v.E})
+					continue
+				}
 				if id == nil || (id.Name != "elems" && id.Name != "allof") || len(x.Args) != 1 {
 					env.fail("assigns: bad target %s", e)
 				}
